@@ -291,3 +291,42 @@ pub fn expand_event(case: &Value) -> Value {
         "b": compile_both_levels(case["unrolled"].as_str().unwrap()),
     })
 }
+
+/// C19: type check, then transform; the error kinds come from TransformError's own
+/// serialisation (variant name) -- only marshalling here.
+pub fn typecheck_event(case: &Value) -> Value {
+    let mut ev = case.clone();
+    let src = case["text"].as_str().unwrap().to_string();
+    let res = catch_unwind(AssertUnwindSafe(|| {
+        let pre = match RoocParser::new(src.clone()).parse() {
+            Ok(p) => p,
+            Err(e) => return json!({"out":"parse_error","why":e.to_error_string()}),
+        };
+        let describe = |e: &rooc::model_transformer::TransformError| {
+            let base = e.base_error();
+            let v = serde_json::to_value(base).unwrap_or(Value::Null);
+            let kind = v["type"].as_str().unwrap_or("?").to_string();
+            let (op, lhs, rhs, msg) = match base {
+                rooc::model_transformer::TransformError::BinOpError { operator, lhs, rhs } => (format!("{:?}", operator), lhs.to_string(), rhs.to_string(), String::new()),
+                rooc::model_transformer::TransformError::UnOpError { operator, exp } => (format!("{:?}", operator), exp.to_string(), String::new(), String::new()),
+                rooc::model_transformer::TransformError::Other(m) => (String::new(), String::new(), String::new(), m.clone()),
+                _ => (String::new(), String::new(), String::new(), String::new()),
+            };
+            json!({"kind":kind,"op":op,"lhs":lhs,"rhs":rhs,"msg":msg,"text":base.to_string()})
+        };
+        let tc = pre.create_type_checker(&vec![], &IndexMap::new());
+        let tr = pre.transform(vec![], &IndexMap::new());
+        json!({
+            "out":"ran",
+            "accepted": tc.is_ok(),
+            "tc": match &tc { Ok(_) => json!({"kind":"","op":"","lhs":"","rhs":"","msg":"","text":""}), Err(e) => describe(e) },
+            "transformed": tr.is_ok(),
+            "tr": match &tr { Ok(_) => json!({"kind":"","op":"","lhs":"","rhs":"","msg":"","text":""}), Err(e) => describe(e) },
+        })
+    }));
+    let r = res.unwrap_or_else(|p| json!({"out":"panic","why":panic_msg(p)}));
+    for (k, v) in r.as_object().unwrap() {
+        ev[k] = v.clone();
+    }
+    ev
+}
